@@ -615,22 +615,49 @@ def r197(ctx, R):
         calls = C.calls_to(ctx, f, inner)
         sets = [n for n in own_nodes(f.node) if isinstance(n, ast.Assign)
                 and any(src(t) == flag for t in n.targets)]
-        ok = len(calls) == 1 and len(sets) == 1
+        ok = len(calls) == 1 and len(sets) >= 1
         why = 'calls=%d flag-stores=%d' % (len(calls), len(sets))
         if ok:
+            # per path through ensure_sync: the sync runs exactly on the
+            # paths that found the flag unset, and on those the flag is
+            # raised (to True) after the call returned - whatever the shape
+            # of the test (nested if, guard clause with early return)
+            from psa import pathval
             cst = C.stmt_of(calls[0])
-            ifs = C.guarding_ifs(cst, f.node)
-            cond = [src(i.test).replace(' ', '') for i, br in ifs
-                    if br == 'body']
-            ok = cond == ['not' + flag] and g.dominates(cst, sets[0]) and \
-                isinstance(sets[0].value, ast.Constant) and \
-                sets[0].value.value is True and C.guarding_ifs(
-                    sets[0], f.node) == ifs
-            # module-level initial value False
+            paths = [p for p in pathval.paths_of(f) if p.end != 'raise']
+
+            def flag_is(a, pol, want):
+                return isinstance(a, ast.Name) and a.id == flag and \
+                    pol == want
+            bad = []
+            n_sync = 0
+            for p in paths:
+                ran = p.passed(cst)
+                unset = pathval.holds(p, lambda a, pol: flag_is(a, pol,
+                                                                False))
+                was_set = pathval.holds(p, lambda a, pol: flag_is(a, pol,
+                                                                 True))
+                if ran:
+                    n_sync += 1
+                    idx = [i for i, x in enumerate(p.stmts) if x is cst][-1]
+                    after = [x for x in p.stmts[idx + 1:] if any(
+                        x is s_ for s_ in sets)]
+                    before = [x for x in p.stmts[:idx] if any(
+                        x is s_ for s_ in sets)]
+                    good = unset and after and not before and all(
+                        isinstance(x.value, ast.Constant) and
+                        x.value.value is True for x in after)
+                    if not good:
+                        bad.append('sync on a path where flag unset=%s, '
+                                   'raised after=%s, before=%s' % (
+                                       unset, bool(after), bool(before)))
+                elif not was_set:
+                    bad.append('a path skips the sync without having '
+                               'found the flag set')
             init = prog.const(f.module.name, flag)
-            ok = ok and init is False
-            why = 'guard %s, flag set after the sync: %s, initial %r' % (
-                cond, g.dominates(cst, sets[0]), init)
+            ok = not bad and n_sync >= 1 and init is False
+            why = bad[:2] or 'sync on %d of %d paths, initial %r' % (
+                n_sync, len(paths), init)
         R.ob('R19.6', '%s:once-flag' % q.split(':')[0].rsplit('.', 1)[1],
              ok, 'the start-up sync runs when the process-wide flag is '
              'unset and the flag is raised only after it returned', why,
